@@ -204,7 +204,7 @@ func (e *Expr) render(st Style, pp int, right bool) string {
 		}
 		return kw("false")
 	case "name":
-		return e.S
+		return QuoteName(e.S)
 	case "not":
 		a := e.A[0]
 		inner := a.render(st, 0, false)
@@ -253,4 +253,24 @@ func (e *Expr) render(st Style, pp int, right bool) string {
 		return e.A[0].render(st, 9, false) + "[" + e.A[1].render(st, 0, false) + "]"
 	}
 	return "?"
+}
+
+// QuoteName renders a field name: bare when it is a plain lower-case word,
+// inside back quotes otherwise.
+func QuoteName(n string) string {
+	plain := n != ""
+	for i := 0; i < len(n); i++ {
+		c := n[i]
+		if !(c == '_' || c >= 'a' && c <= 'z' || i > 0 && c >= '0' && c <= '9') {
+			plain = false
+		}
+	}
+	switch n {
+	case "key", "value", "select", "where", "and", "or", "in", "between", "as", "limit", "order", "by", "asc", "desc", "group", "true", "false", "put", "remove", "delete", "explain":
+		plain = false // reserved words
+	}
+	if plain {
+		return n
+	}
+	return "`" + n + "`"
 }
